@@ -846,7 +846,9 @@ func famWalk(steps int) func(s *scenario) {
 
 func jobs(thorough bool, rnd *rand.Rand) []job {
 	var out []job
-	add := func(name string, f func(s *scenario)) { out = append(out, job{fmt.Sprintf("%s#%d", name, len(out)), f}) }
+	add := func(name string, f func(s *scenario)) {
+		out = append(out, job{fmt.Sprintf("%s#%d", name, len(out)), f})
+	}
 	// the witness of design observation (l) and its neighbours: always
 	for idx := 0; idx < 4; idx++ {
 		add("removed-key/2-versions", famRemovedKey(false, 2, idx))
@@ -860,7 +862,7 @@ func jobs(thorough bool, rnd *rand.Rand) []job {
 		add("deactivated-did", famDeactivatedDID(rnd.Intn(4)))
 		add("controller", famController(rnd.Intn(3)))
 		for _, deact := range []bool{false, true} {
-			for _, idx := range []int{0, 4 + rnd.Intn(8)} { // [d,c1] and one of the others
+			for _, idx := range []int{0, 1, 2 + rnd.Intn(10)} { // [d,c1], [d,c1,c2] and one of the others
 				add("controller-stale", famControllerStale(deact, rnd.Intn(2) == 0, idx))
 			}
 		}
